@@ -1,7 +1,21 @@
 import Tahoe.Immutable.LemmasConvergence
 import Tahoe.Immutable.LemmasSizes
+import Tahoe.Immutable.LemmasUploadable
 /-! C05 — convergent capabilities and literal files (property theorems; helper lemmas live in
-    `Tahoe/Immutable/LemmasConvergence.lean`). -/
+    `Tahoe/Immutable/LemmasConvergence.lean`, `LemmasUploadable.lean`).
+
+## Coverage of the statement (properties.jsonl C05)
+
+| clause of the statement | theorem(s) for the model |
+|---|---|
+| with a convergence secret the read-cap is a deterministic function of plaintext, secret and encoding parameters | `cap_deterministic` (independent of random source, read chunking, and of `max_segment_size` beyond the effective segment size) |
+| re-uploading the same data … from any data source | `cap_source_independent` (any two uploadables keeping the `IUploadable` contract `Supplies` for the same bytes and returning the same keys get the same result, whatever piece sizes their `read` returns) + `source_cap_is_uploadCap` (a FileHandle-like source — key = convergent hash of what its file object's reads deliver, or the random key — gets exactly `uploadCap`'s result, to which `cap_deterministic` applies); C01 `upload_download_any_source` for the bytes |
+| … and with any read chunking | `chunking_irrelevant` (key-hashing loop over any read sequence, short reads included), `cap_source_independent` (piece sizes of `IUploadable.read`) |
+| changing the secret, k, N or segment size changes the storage index | `params_separate`: the tag and the byte string fed to SHA-256d differ. That the *hash values* (key, storage index) then differ is collision resistance of truncated SHA-256d: **not a theorem** (no satisfiable hypothesis states it for a 16-byte hash); **monitor only** |
+| files of at most 55 bytes get a literal cap that embeds the data | `lit_threshold` (threshold pinned to 55 by `constants_pinned`), `literal_any_source` (through `read_this_many_bytes` for any source, short reads allowed) |
+| … and needs no servers | `lit_threshold` / `literal_any_source`: `sharesPushed = 0`, no storage index, and the result is independent of every server-side input (the model's literal branch has no access to servers); that the *code* decides LIT before looking at servers is **correspondence + monitor** (zero-server grids in harness/props/c05.py) |
+| uploads without a convergence secret get a fresh random key | `random_key_is_input` (the key in the cap is exactly the `os.urandom` output); freshness itself is a property of `os.urandom`: **monitor only** |
+-/
 namespace Tahoe.C05
 open Tahoe.Immutable Tahoe.Immutable.Sizes Tahoe.Immutable.Convergence
 open Tahoe.Generated
@@ -151,6 +165,99 @@ example :
     let h : Hasher (List UInt8) := ⟨[], fun s b => s ++ b, fun s => s⟩
     (uploadCap h (fun _ _ _ _ _ => [0]) (some [1]) [] 3 10 128 (List.replicate 55 7) [List.replicate 55 7]).map (·.sharesPushed) = some 0 ∧
     (uploadCap h (fun _ _ _ _ _ => [0]) (some [1]) [] 3 10 128 (List.replicate 56 7) [List.replicate 56 7]).map (·.sharesPushed) = some 10 := by
+  decide
+
+/-- `cap_source_independent`: the upload result does not depend on *how* the bytes are supplied.  For any
+    two uploadables that keep the `IUploadable` contract for the same `data` (`Supplies`: right size, `read`
+    returns the next bytes in whatever piece sizes) and answer `get_encryption_key()` alike (first call:
+    encryptor; second call, after `close()`: read-cap), `Uploader.upload` returns the same result — literal
+    or CHK — and it is the result determined by `(data, keys, k, n, maxSeg)` alone (`capSpec`). -/
+theorem cap_source_independent (uebHashOf : List UInt8 → List UInt8 → Nat → Nat → Nat → List UInt8)
+    (s s' : Uploadable.Source) (data : List UInt8) (k n maxSeg chunk : Nat)
+    (hs : Uploadable.Supplies s data) (hs' : Uploadable.Supplies s' data) (hch : 0 < chunk)
+    (hk0 : s.key 0 = s'.key 0) (hk1 : s.key 1 = s'.key 1) :
+    (Uploadable.uploadCapVia uebHashOf s k n maxSeg chunk).2 = (Uploadable.uploadCapVia uebHashOf s' k n maxSeg chunk).2 ∧
+    (Uploadable.uploadCapVia uebHashOf s k n maxSeg chunk).2
+      = Uploadable.capSpec uebHashOf (s.key 0) (s.key 1) data k n maxSeg := by
+  rw [Uploadable.uploadCapVia_supplies uebHashOf s data k n maxSeg chunk hs hch,
+      Uploadable.uploadCapVia_supplies uebHashOf s' data k n maxSeg chunk hs' hch, hk0, hk1]
+  exact ⟨rfl, rfl⟩
+
+/-- two different sources (one string per read / odd-sized pieces) of 60 bytes: same read calls, same CHK result -/
+example : (Uploadable.exampleResult []).2 = some { cap := .chk [7] [60, 18] 3 10 60, sharesPushed := 10 } := by decide
+example : (Uploadable.exampleResult [5, 3]).2 = some { cap := .chk [7] [60, 18] 3 10 60, sharesPushed := 10 } := by decide
+example : (Uploadable.exampleResult []).1 = [(0, 18), (18, 18), (36, 18), (54, 6)] := by decide
+example : ((Uploadable.chunkySource Uploadable.exampleData60 [5, 3] (fun _ => [7])).read 0 18).map List.length
+    = [5, 3, 5, 3, 2] := by decide
+
+/-- `source_cap_is_uploadCap`: a `FileHandle`-like source — it supplies `data`, and each
+    `get_encryption_key()` answers with `encryptionKey` (convergent hash over whatever its file object's
+    reads deliver, provided they deliver `data`; or the cached random key) — gets exactly the result of the
+    cap-level model `uploadCap`, so `cap_deterministic`, `lit_threshold`, `random_key_is_input` apply to it.
+    (`maxSeg = 0` is excluded: the real encoder then raises ZeroDivisionError, `encoderSizes` = error.) -/
+theorem source_cap_is_uploadCap {S : Type} (h : Hasher S) (hl : h.Lawful)
+    (uebHashOf : List UInt8 → List UInt8 → Nat → Nat → Nat → List UInt8)
+    (convergence : Option (List UInt8)) (urandom : List UInt8) (s : Uploadable.Source) (data : List UInt8)
+    (k n maxSeg chunk : Nat) (reads : List (List UInt8)) (hch : 0 < chunk) (hk : 0 < k) (hmax : 0 < maxSeg)
+    (hs : Uploadable.Supplies s data) (hr : consumed reads = data)
+    (hkey : ∀ seg, segSize k maxSeg data.length = .ok seg → ∀ i, ∃ reads_i, consumed reads_i = data ∧
+        encryptionKey h convergence urandom k n seg reads_i = some (s.key i)) :
+    (Uploadable.uploadCapVia (fun _ => uebHashOf (s.key 1)) s k n maxSeg chunk).2
+      = uploadCap h uebHashOf convergence urandom k n maxSeg data reads := by
+  rw [Uploadable.uploadCapVia_supplies _ s data k n maxSeg chunk hs hch]
+  unfold Uploadable.capSpec uploadCap
+  cases hlit : isLiteral data.length with
+  | true => rfl
+  | false =>
+    simp only [Bool.false_eq_true, if_false]
+    cases hseg : segSize k maxSeg data.length with
+    | error e => rfl
+    | ok seg =>
+      simp only
+      obtain ⟨reads1, hc1, hk1⟩ := hkey seg hseg 1
+      have hsame : encryptionKey h convergence urandom k n seg reads = some (s.key 1) := by
+        rw [← hk1]
+        cases convergence with
+        | none => rfl
+        | some secret =>
+          simp only [encryptionKey]
+          exact (chunking_irrelevant h hl k n seg secret reads reads1 (by rw [hr, hc1])).1
+      rw [hsame]
+      have hsegpos : seg % k = 0 ∧ (0 < data.length → 0 < seg) := by
+        simp only [segSize, Nat.ne_of_gt hk, if_false] at hseg
+        injection hseg with hseg
+        rw [← hseg]
+        exact ⟨nextMultiple_mod _ _, fun hd => nextMultiple_pos (by omega) hk⟩
+      have hpos : 0 < data.length := by
+        rcases Nat.eq_zero_or_pos data.length with h0 | hp
+        · rw [h0] at hlit; simp [isLiteral] at hlit
+        · exact hp
+      rw [encoderSizes_ok hk (hsegpos.2 hpos) hsegpos.1]
+
+/-- non-vacuity of `source_cap_is_uploadCap`: a convergent source over the transparent hasher -/
+example :
+    let h : Hasher (List UInt8) := ⟨[], fun st b => st ++ b, fun st => st⟩
+    let data : List UInt8 := (List.range 60).map UInt8.ofNat
+    (uploadCap h (fun _ _ _ _ _ => [0]) (some [1]) [] 3 10 16 data [data.take 7, data.drop 7]).map (·.sharesPushed) = some 10 ∧
+    convergentKey h 3 10 18 [1] [data.take 7, data.drop 7] = convergentKey h 3 10 18 [1] [data] := by
+  decide
+
+/-- `literal_any_source`: every uploadable holding at most 55 bytes gets the literal cap embedding exactly
+    those bytes and pushes nothing to any server — even if its `read` returns short results (the literal
+    uploader loops), whatever its keys, `k`, `n`, segment size or `CHUNKSIZE`. -/
+theorem literal_any_source (uebHashOf : List UInt8 → List UInt8 → Nat → Nat → Nat → List UInt8)
+    (s : Uploadable.Source) (data : List UInt8) (k n maxSeg chunk : Nat)
+    (hs : Uploadable.SuppliesShort s data) (hsmall : data.length ≤ 55) :
+    (Uploadable.uploadCapVia uebHashOf s k n maxSeg chunk).2 = some { cap := .lit data, sharesPushed := 0 } := by
+  apply Uploadable.uploadCapVia_literal uebHashOf s data k n maxSeg chunk hs
+  simp only [isLiteral, decide_eq_true_eq]
+  exact hsmall
+
+/-- a source whose reads deliver one byte at a time still yields the literal cap -/
+example :
+    (Uploadable.uploadCapVia (fun _ _ _ _ _ => [])
+      { size := 4, read := fun pos _ => [(([5, 6, 7, 8] : List UInt8).drop pos).take 1], key := fun _ => [] } 0 0 0 0).2
+      = some { cap := .lit [5, 6, 7, 8], sharesPushed := 0 } := by
   decide
 
 end Tahoe.C05
